@@ -116,7 +116,15 @@ def run_case(case):
         V("stream.library_seed_call", f"library code re-seeded the process-wide stream during a run without random_state: seed({bad[0][0]}) from {bad[0][1]} ({len(bad)} call(s))", site=bad[0][1].split(":")[0], value=bad[0][0])
     # crash -> resume: the resumed incarnation must not replay the innovations of the first one
     if case.get("resume_arm"):
-        C = run_plain(case, s1, R, scen=dict(scenario="crash_resume", save_every=1, like_fault=dict(kind="crash.process", batch=case["resume_arm"])))
+        rscen = dict(scenario="crash_resume", save_every=1, like_fault=dict(kind="crash.process", batch=case["resume_arm"]))
+        if case.get("resume_rs", "same") != "same":
+            # the resuming process constructs its sampler with another random_state than the one that wrote the checkpoint (None, or another seed)
+            rscen["reconfig"] = dict(random_state=None if case["resume_rs"] == "none" else (R or 0) + 17)
+        C = run_plain(case, s1, R, scen=rscen)
+        bad = [(k, site) for (k, site) in lib_seed_calls(C["runs"][1:], None) if not (case.get("resume_rs") == "other" and k == (R or 0) + 17 and any(x in site for x in ("core.py", "sampler.py")))]
+        if case.get("resume_rs", "same") != "same" and bad:
+            V("stream.library_seed_call", f"while resuming with random_state={'None' if case['resume_rs'] == 'none' else (R or 0) + 17} library code re-seeded the process-wide stream: seed({bad[0][0]}) from {bad[0][1]} "
+              f"(the checkpoint was written by a sampler seeded with {R})", site=bad[0][1].split(":")[0], value=bad[0][0], op="resume")
         if C["info"]["resumed"] and len(C["runs"]) == 2:
             # only draws made *before* the checkpoint that was resumed count: what the dead
             # process drew after it was lost with the crash and may legitimately be drawn again
@@ -132,8 +140,8 @@ def run_case(case):
                 V("resume.replays_innovations", f"after resuming from a checkpoint the run re-used {len(sh)} of its first {len(f0)} 64-bit draw values (the stream was rewound to its initial seed)", op="resume")
             # the resumed, seeded sampler is itself "a sampler constructed with a given random_state and run on the same inputs" (incl. the same checkpoint):
             # it must give the same history whatever the process-wide stream held when the resuming process started
-            C2 = run_plain(case, s2, R, scen=dict(scenario="crash_resume", save_every=1, like_fault=dict(kind="crash.process", batch=case["resume_arm"])))
-            if C2["info"]["resumed"] and C2["info"].get("resume_from") == C["info"].get("resume_from") and (C2["digest"] != C["digest"] or C2["ev"] != C["ev"]):
+            C2 = run_plain(case, s2, R, scen=rscen) if case.get("resume_rs", "same") != "none" else None
+            if C2 is not None and C2["info"]["resumed"] and C2["info"].get("resume_from") == C["info"].get("resume_from") and (C2["digest"] != C["digest"] or C2["ev"] != C["ev"]):
                 V("seed.not_reproducible", f"two seeded samplers (random_state={R}) resumed from the same checkpoint gave different histories/evidence ({C['ev']!r} vs {C2['ev']!r}) when the resuming process's stream was in a different state", op="resume")
     # (c) library operations on data
     drng = np.random.RandomState(case["seed"] % (2**31))
@@ -172,6 +180,7 @@ def cases(seed, tier):
         c = wp.std_case(r, sch.np_seed(f"s{k}") % (2**31), kinds=("gauss", "bimodal", "hole"), scenarios=("plain",), evals=("scalar", "vector", "scalar", "poolint", "pool"), blobs=(0,), clustering=(k % 2 == 0), vv=False, n_totals=(64, 96))
         if r.random() < 0.5:
             c["resume_arm"] = r.randrange(3, 14)
+            c["resume_rs"] = r.choice(["same", "same", "none", "other"])
         if k % 7 == 3:
             c["cfg"]["random_state"] = 0  # a falsy but perfectly valid seed
         if k % 5 == 4:
